@@ -839,6 +839,13 @@ func init() {
 		}
 		return Val{T: e.sc.define("p", "String", cur), S: "String", GoT: tString}, true
 	}
+	// path.Split: dir + file == p, file has no slash, dir is empty or ends with a slash (this determines the pair)
+	splitFn := func(e *Engine, fc *fnCtx, st *State, c *ssa.CallCommon, a []Val, r types.Type) (Val, bool) {
+		d, f := e.pathSplitTerms(a[0].T)
+		return tuple(Val{T: d, S: "String", GoT: tString}, Val{T: f, S: "String", GoT: tString}), true
+	}
+	H["path.Split"] = splitFn
+	H["path/filepath.Split"] = splitFn
 	H["path.Join"] = joinFn
 	H["path/filepath.Join"] = joinFn
 	isAbs := func(e *Engine, fc *fnCtx, st *State, c *ssa.CallCommon, a []Val, r types.Type) (Val, bool) {
@@ -1326,4 +1333,21 @@ func (e *Engine) comparatorSpec(fc *fnCtx, st *State, arg ssa.Value, v Val) func
 		q := e.applySpecFn(env, eqf, sargs)
 		return Val{T: ite(l.T, "(- 1)", ite(q.T, "0", "1")), S: "Int", GoT: tInt}
 	}
+}
+
+// pathSplitTerms / pathSplitFacts: the two results of path.Split as uninterpreted functions of the argument, with the
+// facts that characterise them.
+func (e *Engine) pathSplitTerms(p string) (string, string) {
+	e.sc.declareFun("pathSplitDir", []string{"String"}, "String")
+	e.sc.declareFun("pathSplitFile", []string{"String"}, "String")
+	if !e.sc.declared["pathSplitAx"] {
+		e.sc.declared["pathSplitAx"] = true
+		e.sc.assert("(forall ((p String)) (! " + pathSplitFacts("p", "(pathSplitDir p)", "(pathSplitFile p)") + " :pattern ((pathSplitDir p)) :pattern ((pathSplitFile p))))")
+		e.w.Trusted["path.Split: dir + file == p, file contains no slash, dir is empty or ends with a slash"] = true
+	}
+	return "(pathSplitDir " + p + ")", "(pathSplitFile " + p + ")"
+}
+
+func pathSplitFacts(p, d, f string) string {
+	return and("(= "+p+" (str.++ "+d+" "+f+"))", "(not (str.contains "+f+" \"/\"))", or("(= "+d+" \"\")", "(str.suffixof \"/\" "+d+")"))
 }
